@@ -24,7 +24,7 @@ func init() {
 				"term.Type() == safeWriterType, and executeList prints/renders a value only under !safeWriter; (C01.last) a SafeWriter command must be last: every later command is evaluated only " +
 				"under !safeWriter of the previous one, the other branch being no-return; (C01.swap) the output destination lives in exactly one place, escapeeWriter.Writer — no other field is " +
 				"assigned an io.Writer, wrappers holding one are transient locals — Runtime.escapeeWriter is assigned only in the pool constructor and escapeeWriter.set only in Execute from t.set; " +
-				"(C01.default) NewSet installs text/template.HTMLEscape, WithSafeWriter is the only other writer of Set.escapee, and safeHtml/safeJs/raw/unsafe are bound to HTMLEscape/JSEscape/unsafePrinter. (C01.sink, continued) the JSON renderer writes raw by design; the HTML escaping of its encoder is never switched off. (C01.default, continued) a built-in's value may be held in a local defined once.",
+				"(C01.default) NewSet installs text/template.HTMLEscape, WithSafeWriter is the only other writer of Set.escapee, and safeHtml/safeJs/raw/unsafe are bound to HTMLEscape/JSEscape/unsafePrinter. (C01.sink, continued) the JSON renderer writes raw by design; the HTML escaping of its encoder is never switched off. (C01.default, continued) a built-in's value may be held in a local defined once. (C01.safe flag, continued) a command answers \"not a safe writer\" only where its term is known not to be one: a SafeWriter term is never passed over, whatever the Set's own escaper is.",
 			NotDecided:  "that template.HTMLEscape escapes the five characters and fastprinter forwards every chunk to the writer it was given (trusted); Renderer values (writeJson, hiddenBool) write raw by documented design (reported as notes, not violations).",
 			Assumptions: []string{"text/template.HTMLEscape/JSEscape and fastprinter behave as documented"},
 			Trusted:     commonTrusted,
@@ -521,7 +521,24 @@ func c01safe(c *an.Ctx) {
 			continue
 		}
 		ginfo := g.Info()
-		hooks := an.Hooks{Call: func(x *an.Explorer, call *ast.CallExpr, st *an.State) {
+		hooks := an.Hooks{Branch: func(x *an.Explorer, cond ast.Expr, val bool, st *an.State) {
+			// what the test of the term's type against the SafeWriter type said is kept in a register
+			branchLeaves(x, cond, val, st, func(e ast.Expr, v bool) {
+				b, isBin := an.Unparen(e).(*ast.BinaryExpr)
+				if !isBin || (b.Op != token.EQL && b.Op != token.NEQ) {
+					return
+				}
+				// (the term's type may be held in a local: what matters is the comparison with the SafeWriter type)
+				s := an.Str(b)
+				if strings.Contains(s, "safeWriterType") {
+					if (b.Op == token.EQL) == v {
+						st.Set("termIsSW", "yes")
+					} else {
+						st.Set("termIsSW", "no")
+					}
+				}
+			})
+		}, Call: func(x *an.Explorer, call *ast.CallExpr, st *an.State) {
 			if an.IsCallTo(ginfo, call, "(*jet.Runtime).evalSafeWriter") {
 				isSW := false
 				for k, v := range st.Facts {
@@ -555,6 +572,14 @@ func c01safe(c *an.Ctx) {
 			case flag == "false":
 				if ex.State.Get("sw") != "" {
 					ok, why = false, "a SafeWriter wrote the value but the command reports safeWriter = false: the value is printed a second time through the escaper"
+				}
+				// … and a SafeWriter term is never passed over: "not a safe writer" is answered only where the term is
+				// known not to be one (whatever the Set's own escaper is — a writer that "is" the escaper still applies
+				// *its* escaping, which the caller asked for)
+				// (the pipe form always applies its term; the plain form may hand back a term that is not applied at all)
+				passedOver := ex.State.Get("termIsSW") == "yes" || (strings.HasSuffix(name, "evalCommandPipeExpression") && ex.State.Get("termIsSW") != "no")
+				if passedOver && ok {
+					ok, why = false, "reports safeWriter = false on a path where the command term may be a SafeWriter: the writer the template asked for is skipped and the Set's escaper is applied instead"
 				}
 			default:
 				ok, why = false, "the safeWriter flag returned is "+flag+", not a constant decided by the SafeWriter test"
